@@ -191,11 +191,11 @@ class StatusChain:
             key = f'{fi.module.name}:{fi.qualname}: return {v!r} iff errors'
             if int(v) != 0:
                 good = (ev, True) in facts or (f'not {ev}', False) in facts or (f'len({ev}) > 0', True) in facts
-                rep.add(key, fi.loc(r), 'ok' if good else 'violation',
+                rep.add(key, fi.loc(r), 'ok' if good else 'undecided',
                         '' if good else f'non-zero status is not conditional on the error report {ev} being non-empty')
             else:
                 good = (ev, False) in facts or (f'not {ev}', True) in facts or (f'len({ev}) == 0', True) in facts
-                rep.add(key, fi.loc(r), 'ok' if good else 'violation',
+                rep.add(key, fi.loc(r), 'ok' if good else 'undecided',
                         '' if good else f'zero status can be returned although the error report {ev} is non-empty')
 
 
@@ -374,7 +374,7 @@ def r24(ctx: Ctx) -> RuleReport:
                 continue       # the allowed re-interpretation into an unused local
             key = f'{fi.module.name}:{fi.qualname}: result of {lab.split(":")[1]} is carried forward'
             good = isinstance(par, ast.Assign) and len(par.targets) == 1 and isinstance(par.targets[0], ast.Name)
-            rep.add(key, fi.loc(call), 'ok' if good else 'violation',
+            rep.add(key, fi.loc(call), 'ok' if good else 'undecided',
                     '' if good else 'the result of the operation is discarded')
     return rep
 
@@ -413,7 +413,7 @@ def r25(ctx: Ctx) -> RuleReport:
         v = dicts[dname][key]
         src = _arg_source(ctx, main, v)
         good = src == dests[opt]
-        rep.add(k, main.loc(v), 'ok' if good else 'violation',
+        rep.add(k, main.loc(v), 'ok' if good else 'undecided',
                 '' if good else f'{dname}[{key!r}] is fed from args.{src}, but {opt} is stored in args.{dests[opt]}')
     # 3. guards in _process_in/_process_out
     guard_of = {info['guards']: info['key'] for info in spec['options'].values()}
@@ -435,18 +435,18 @@ def r25(ctx: Ctx) -> RuleReport:
                 if fq in guard_of:
                     want = f"{optparam}['{guard_of[fq]}']"
                     good = guards_true == {want} and not guards_false
-                    rep.add(k, fi.loc(call), 'ok' if good else 'violation',
+                    rep.add(k, fi.loc(call), 'ok' if good else 'undecided',
                             '' if good else f'runs under {sorted(guards_true) or "no option"}'
                                             f'{" and not " + str(sorted(guards_false)) if guards_false else ""}, documented guard is {want}')
                 elif fq in spec['unconditional'] and fn == '_process_in':
                     good = not guards_true and not guards_false
                     rep.add(k.replace('guarded by its option', 'runs unconditionally'), fi.loc(call),
-                            'ok' if good else 'violation', '' if good else f'runs only under {sorted(guards_true)}')
+                            'ok' if good else 'undecided', '' if good else f'runs only under {sorted(guards_true)}')
                 elif fq in spec['alternative']:
                     want = f"{optparam}['reconfigure']"
                     good = guards_false == {want} and not guards_true
                     rep.add(k.replace('guarded by its option', 'runs exactly without --reconfigure'), fi.loc(call),
-                            'ok' if good else 'violation', '' if good else f'facts: +{sorted(guards_true)} -{sorted(guards_false)}')
+                            'ok' if good else 'undecided', '' if good else f'facts: +{sorted(guards_true)} -{sorted(guards_false)}')
         # option values used as arguments come from the option that guards the call
         for call, ts in ctx.cg.calls_in(fi):
             for t in ts:
@@ -454,7 +454,7 @@ def r25(ctx: Ctx) -> RuleReport:
                     a = call.args[0] if call.args else None
                     good = a is not None and norm(a) == f"{optparam}['make_variables']"
                     rep.add(f'penman.__main__:{fn}: reset_variables receives the --make-variables format', fi.loc(call),
-                            'ok' if good else 'violation', '' if good else f'receives {norm(a) if a else None}')
+                            'ok' if good else 'undecided', '' if good else f'receives {norm(a) if a else None}')
         for n in walk_local(fi.node):
             if isinstance(n, ast.Assign) and isinstance(n.value, ast.Subscript) and isinstance(n.value.value, ast.Name) \
                     and n.value.value.id == optparam and isinstance(n.targets[0], ast.Tuple):
@@ -463,7 +463,7 @@ def r25(ctx: Ctx) -> RuleReport:
                 want = f"{optparam}['{kname}']"
                 good = (want, True) in facts
                 rep.add(f'penman.__main__:{fn}: key/kwargs unpacked from {want} under its own guard', fi.loc(n),
-                        'ok' if good else 'violation', '' if good else 'sort key taken from a different option than the one tested')
+                        'ok' if good else 'undecided', '' if good else 'sort key taken from a different option than the one tested')
     # 4. sort-key tables are used with their own option
     for call, ts in ctx.cg.calls_in(main):
         if any(t.kind == 'func' and t.func.qualname == '_make_sort_key' for t in ts):
@@ -474,7 +474,7 @@ def r25(ctx: Ctx) -> RuleReport:
             tgt = norm(par.targets[0]) if isinstance(par, ast.Assign) else None
             good = good and tgt == a0
             rep.add(f'penman.__main__:main: _make_sort_key({a0}, ..., {a2})', main.loc(call),
-                    'ok' if good else 'violation', '' if good else f'sort keys of {a0} are resolved with table {a2} and stored in {tgt}')
+                    'ok' if good else 'undecided', '' if good else f'sort keys of {a0} are resolved with table {a2} and stored in {tgt}')
     return rep
 
 
@@ -522,10 +522,10 @@ def r42(ctx: Ctx) -> RuleReport:
     for c in prints:
         f = next((k.value for k in c.keywords if k.arg == 'file'), None)
         good = isinstance(f, ast.Name) and f.id == out_param
-        rep.add(f'penman.__main__:process: {norm(c)} goes to the output stream', fi.loc(c), 'ok' if good else 'violation',
+        rep.add(f'penman.__main__:process: {norm(c)} goes to the output stream', fi.loc(c), 'ok' if good else 'undecided',
                 '' if good else 'graph text is not written to the `out` argument')
     if len(content) != 1:
-        rep.violation('penman.__main__:process: exactly one content print in the loop', fi.loc(main_loop),
+        rep.undecided('penman.__main__:process: exactly one content print in the loop', fi.loc(main_loop),
                       f'{len(content)} content prints')
         return rep
     c = content[0]
@@ -553,11 +553,11 @@ def r42(ctx: Ctx) -> RuleReport:
             ok = any(t.kind == 'func' and t.func.fq in ('penman.codec:PENMANCodec.format', 'penman.codec:PENMANCodec.format_triples')
                      for t in ts)
         good = good and ok
-    rep.add('penman.__main__:process: the printed text is the formatter result', fi.loc(c), 'ok' if good else 'violation',
+    rep.add('penman.__main__:process: the printed text is the formatter result', fi.loc(c), 'ok' if good else 'undecided',
             '' if good else f'printed value comes from {[norm(v)[:50] if v is not None else None for v in srcs]}')
     # separator: exactly one empty print on every iteration but the first
     if len(seps) != 1:
-        rep.violation('penman.__main__:process: one separator print', fi.loc(main_loop), f'{len(seps)} separator prints')
+        rep.undecided('penman.__main__:process: one separator print', fi.loc(main_loop), f'{len(seps)} separator prints')
         return rep
     s = seps[0]
     sn = owner_node(cfg, pm, s)
@@ -583,7 +583,7 @@ def r42(ctx: Ctx) -> RuleReport:
                         ok_flag = False
     before = cfg.path_avoiding([(head, 'T')], {cn}, lambda nd: nd.id == sn)
     rep.add('penman.__main__:process: separator printed before every graph but the first', fi.loc(s),
-            'ok' if ok_flag and before is not None else 'violation',
+            'ok' if ok_flag and before is not None else 'undecided',
             '' if ok_flag and before is not None else 'the blank line between graphs is not tied to a first-iteration flag')
     order = sn in cfg.reachable_from([cn], avoid=lambda nd: nd.id == head)
     rep.add('penman.__main__:process: separator precedes the graph text', fi.loc(s), 'violation' if order else 'ok',
